@@ -453,7 +453,11 @@ def shape_defs(rng, builtins):
                  ('diff', set_((0, 0x10FFFF)), set_((1, 0xD7FF), (0xE000, 0x10FFFE))),
                  ('diff', ('diff', ANY, set_(('a', 'c'))), set_(('b', 'x'))), set_((0xD7FF, 0xE000)),
                  ('diff', ('alt', ('bi', 'alphabetic'), ('bi', 'numeric')), ('bi', 'ascii_alphanumeric')),
-                 ('diff', ('bi', 'XID_Continue'), ('bi', 'XID_Start'))]
+                 ('diff', ('bi', 'XID_Continue'), ('bi', 'XID_Start')),
+                 # pieces that end or start exactly at the borders of the surrogate gap after splitting / subtraction
+                 ('diff', ANY, set_((0xE000, 0xF8FF))), ('diff', set_((0x80, 0x10FFFF)), set_((0xE000, 0xE000))),
+                 ('diff', set_((0xD000, 0xF000)), set_((0xD000, 0xD7FF))), ('diff', ANY, set_((0x100, 0xD7FF))),
+                 ('alt', set_((0x80, 0xD7FF)), set_((0xE000, 0xE001)))]
     for i, ce in enumerate(cls_exprs):
         out.append({'name': 'ShCls%d' % i, 'items': [('errortype',), rule('simple', cat(ce, chr_('x'))), rule('simple', ('plus', ce)), rule('simple', ANY)]})
     # built-ins: alone (table / per-range arms), split by overlapping rules (guard chain), as right context
@@ -469,7 +473,10 @@ def shape_defs(rng, builtins):
 # inputs
 
 
-UNICODE_POOL = [10, 9, 32, 0xE9, 0xDF, 0x4E2D, 0x1F600, 0x200D, 0x301, 0x1100, 0xAD, 0, 0x7F, 0x85, 0x2028, 0xFF21, 0x10FFFF]
+UNICODE_POOL = [10, 9, 32, 0xE9, 0xDF, 0x4E2D, 0x1F600, 0x200D, 0x301, 0x1100, 0xAD, 0, 0x7F, 0x85, 0x2028, 0xFF21, 0x10FFFF,
+                # characters that text-handling code likes to treat specially: BOM, CR, replacement char, non-characters, NBSP, ZWSP,
+                # paragraph separator, the borders of the surrogate gap
+                0xFEFF, 13, 0xFFFD, 0xFFFF, 0xA0, 0x200B, 0x2029, 0xD7FF, 0xE000]
 
 
 def def_alphabet(d, builtins, limit=6):
